@@ -28,7 +28,7 @@ ASSUMPTIONS = ['R-fsm transcribed from PS3.8 Table 9-10', 'quiescence = 3 select
 
 ARTIM = 10.0
 PEER_EVENTS = ['p:rq', 'p:ac', 'p:rj', 'p:data', 'p:data2', 'p:part', 'p:relrq', 'p:relrp',
-               'p:abort', 'p:abort2', 'p:unk', 'p:unk0', 'p:garb']
+               'p:abort', 'p:abort2', 'p:unk', 'p:unk0', 'p:garb', 'p:trunc', 'p:badpd']
 USER_LEGAL = {
     'Sta3': ['u:ac', 'u:rj', 'u:rj2', 'u:abort'],
     'Sta5': ['u:abort'],
